@@ -297,6 +297,22 @@ func shapeMsg(shape string) *dns.Msg {
 	case "no-opt":
 		m.Rcode = dns.RcodeNameError
 		m.Extra = rest
+	case "windowed-sections":
+		// every section is a WINDOW with spare capacity into a larger array that others still use
+		// (m.Answer = cache[:n]): the elements behind len are live records, visible in the exact snapshot
+		win := func(rrs []dns.RR) []dns.RR {
+			cache := make([]dns.RR, 0, len(rrs)+24)
+			cache = append(cache, rrs...)
+			for i := 0; i < 24; i++ { // the neighbours in the cache: more of them than the later sections have records
+				a := &dns.A{}
+				rw.Populate(a, dns.TypeA)
+				cache = append(cache, a)
+			}
+			return cache[:len(rrs)]
+		}
+		m.Answer, m.Ns, m.Extra = win(m.Answer), win(m.Ns), win(m.Extra)
+		qs := append(make([]dns.Question, 0, 3), m.Question[0], dns.Question{Name: "Cached.Example.ORG.", Qtype: dns.TypeA, Qclass: dns.ClassINET})
+		m.Question = qs[:1]
 	case "no-records/q0", "no-records/q1", "no-records/q2", "no-records/q1/uncompressed":
 		// header and questions only (a query, an empty reply): nothing a compression pointer could
 		// point to, every header flag set
@@ -389,7 +405,7 @@ func cases() []tcase {
 	// small messages in other shapes: where the OPT sits in the additional section, a TSIG after it,
 	// two questions, empty sections, no OPT at all
 	for _, shape := range []string{"opt-first", "opt-middle+tsig", "two-questions+empty-sections", "no-opt",
-		"no-records/q0", "no-records/q1", "no-records/q2", "no-records/q1/uncompressed"} {
+		"no-records/q0", "no-records/q1", "no-records/q2", "no-records/q1/uncompressed", "windowed-sections"} {
 		shape := shape
 		cs = append(cs, tcase{name: "Msg/small/" + shape,
 			build: func() object { return &msgObj{shapeMsg(shape), false} },
@@ -870,8 +886,8 @@ func record(out string, episodes int) {
 	smallTo := small
 	smallTo.name = "Msg/small/CopyTo"
 	smallTo.build = func() object { return &msgObj{buildMsg(true), true} }
-	shapes := append([]tcase(nil), cs[len(cs)-9:len(cs)-1]...)
-	cs = append(append(cs[:len(cs)-11], small, smallTo), shapes...) // the full-size messages and the value-equality case are for the replay tier
+	shapes := append([]tcase(nil), cs[len(cs)-10:len(cs)-1]...)
+	cs = append(append(cs[:len(cs)-12], small, smallTo), shapes...) // the full-size messages and the value-equality case are for the replay tier
 	ro := []string{"Pack", "Len", "String", "IsDuplicate", "Copy", "Sign", "Verify"}
 	seen := map[string]bool{}
 	var keep [][]byte // scribbled and replaced buffers stay referenced: their addresses must not be reused within an episode
@@ -879,7 +895,7 @@ func record(out string, episodes int) {
 		tc := &cs[rng.Intn(len(cs))]
 		// the interesting types more often
 		if rng.Intn(3) == 0 {
-			pick := []string{"OPT", "SVCB", "HTTPS", "APL", "VERIFPRIV", "Msg/small", "Msg/small/CopyTo", "AAAA", "IPSECKEY", "Msg/small/opt-first", "Msg/small/opt-middle+tsig", "Msg/small/no-opt", "Msg/small/no-records/q1", "Msg/small/no-records/q0"}
+			pick := []string{"OPT", "SVCB", "HTTPS", "APL", "VERIFPRIV", "Msg/small", "Msg/small/CopyTo", "AAAA", "IPSECKEY", "Msg/small/opt-first", "Msg/small/opt-middle+tsig", "Msg/small/no-opt", "Msg/small/no-records/q1", "Msg/small/no-records/q0", "Msg/small/windowed-sections"}
 			want := pick[rng.Intn(len(pick))]
 			for i := range cs {
 				if cs[i].name == want {
